@@ -72,6 +72,8 @@ type Exec struct {
 	curCallInstr ssa.Instruction
 	modelTerms  []modelTerm
 	reveal      map[string]bool
+	textNames   bool
+	maxInline   int
 }
 
 func newExec(v *Verifier, pkg, name, prefix string) *Exec {
@@ -156,6 +158,14 @@ func (x *Exec) oblige(st *State, kind string, tags []string, pos token.Pos, goal
 	}
 	x.obCount[kind]++
 	name := fmt.Sprintf("%s.%s/%s#%d", shortPkg(x.pkg), x.name, kind, x.obCount[kind])
+	if x.textNames {
+		// sweep mode: names must survive unrelated edits, so they are built from the source text of
+		// the line the obligation belongs to instead of an ordinal
+		txt := x.V.lineText(pos)
+		key := kind + ":" + txt
+		x.obCount[key]++
+		name = fmt.Sprintf("%s.%s/%s#%d", shortPkg(x.pkg), x.name, key, x.obCount[key])
+	}
 	if x.splitLabel != "" {
 		name += "[" + x.splitLabel + "]"
 	}
@@ -506,6 +516,8 @@ type Frame struct {
 	edgePC   map[[2]*ssa.BasicBlock]string
 	unknownParams bool
 	callSite ssa.Instruction
+	region   *loopInfo
+	regionExits []*State
 }
 
 func (x *Exec) findLoops(fr *Frame) {
@@ -895,6 +907,118 @@ func (x *Exec) runFunc(fr *Frame, st *State) (*State, []Val) {
 	return out, results
 }
 
+// runLoopBody symbolically executes ONE iteration of loop `ordinal` of fr.fn, starting at the loop
+// head from a state in which every local variable defined outside the body holds an arbitrary
+// value of its type (the loop's own invariants are assumed), and ending at the back edge.
+// Used by pair lemmas over kernels that are written inline in scan loops.
+func (x *Exec) prepareLoopBody(fr *Frame, ordinal int, st *State) error {
+	fn := fr.fn
+	x.findLoops(fr)
+	var li *loopInfo
+	for _, l := range fr.loops {
+		if l.ordinal == ordinal {
+			li = l
+		}
+	}
+	if li == nil {
+		return fmt.Errorf("function %s has no loop %d", fn.Name(), ordinal)
+	}
+	fr.region = li
+	// arbitrary values for everything defined outside the body
+	paramOf := map[*ssa.Alloc]int{}
+	for _, in := range fn.Blocks[0].Instrs {
+		if s, ok := in.(*ssa.Store); ok {
+			if a, ok := s.Addr.(*ssa.Alloc); ok {
+				if p, ok := s.Val.(*ssa.Parameter); ok {
+					for i, fp := range fn.Params {
+						if fp == p {
+							paramOf[a] = i
+						}
+					}
+				}
+			}
+		}
+	}
+	var facts []string
+	for _, b := range fn.Blocks {
+		if li.body[b] && b != li.header {
+			continue
+		}
+		for _, in := range b.Instrs {
+			a, ok := in.(*ssa.Alloc)
+			if !ok {
+				continue
+			}
+			if b == li.header {
+				continue
+			}
+			rt := deref(a.Type())
+			if !a.Heap {
+				if i, isParam := paramOf[a]; isParam && i < len(fr.params) {
+					st.cells[a] = fr.params[i]
+					continue
+				}
+				v, f := x.freshVal("rg_"+sanitize(a.Comment), rt)
+				facts = append(facts, f)
+				st.cells[a] = v
+				for i, l := range leavesOf(rt) {
+					if l.Dims == 0 && i < len(v.L) {
+						x.paramNames = append(x.paramNames, v.L[i])
+					}
+				}
+			} else {
+				ref := x.fresh("rgp_"+sanitize(a.Comment), "Int")
+				facts = append(facts, "(> "+ref+" 0)", "(< "+ref+" "+fmt.Sprint(int64(1)<<40)+")")
+				fr.vals[a] = Val{Typ: a.Type(), L: []string{ref}, NonNil: true}
+			}
+		}
+	}
+	x.assume(st, smtAnd(facts...))
+	// the loop's invariants (and those of enclosing loops) hold at the head
+	for _, l := range fr.loops {
+		if l.lc == nil || !l.body[li.header] {
+			continue
+		}
+		for _, inv := range l.lc.Invariants {
+			env := x.frameEnv(fr, st, l.pos)
+			if t, e := x.specBool(env, inv.Expr); e == nil {
+				x.assume(st, t)
+			}
+		}
+	}
+	return nil
+}
+
+// runLoopBody executes the prepared loop body from st to the back edge.
+func (x *Exec) runLoopBody(fr *Frame, st *State) (*State, error) {
+	fn := fr.fn
+	li := fr.region
+	isBack := func(from, to *ssa.BasicBlock) bool { return to.Dominates(from) && fr.loops[to] != nil }
+	order := rpo(fn, isBack)
+	incoming := map[*ssa.BasicBlock][]*State{}
+	incoming[li.header] = []*State{st}
+	for _, b := range order {
+		if !li.body[b] {
+			continue
+		}
+		cur := x.mergeStates(incoming[b])
+		delete(incoming, b)
+		if cur == nil {
+			continue
+		}
+		cur = cur.clone()
+		if l2 := fr.loops[b]; l2 != nil && l2 != li {
+			x.enterLoop(fr, l2, cur)
+		}
+		x.execBlock(fr, b, cur, incoming, isBack)
+	}
+	exit := x.mergeStates(fr.regionExits)
+	if exit == nil {
+		return nil, fmt.Errorf("loop %d of %s: the back edge is not reachable", li.ordinal, fn.Name())
+	}
+	return exit.clone(), nil
+}
+
 // enterLoop: check the invariant on entry, havoc what the loop may modify, assume the invariant.
 func (x *Exec) enterLoop(fr *Frame, li *loopInfo, st *State) {
 	tags := fr.propTags
@@ -1040,6 +1164,15 @@ func (x *Exec) flow(fr *Frame, from, to *ssa.BasicBlock, st *State, incoming map
 	}
 	if fr.edgePC != nil {
 		fr.edgePC[[2]*ssa.BasicBlock{from, to}] = st.pc
+	}
+	if fr.region != nil {
+		if to == fr.region.header {
+			fr.regionExits = append(fr.regionExits, st)
+			return
+		}
+		if !fr.region.body[to] {
+			return // leaves the region
+		}
 	}
 	if isBack(from, to) {
 		x.backEdge(fr, fr.loops[to], st)
